@@ -234,6 +234,8 @@ pub open spec fn authenticated_by(s: SendRec, signer: Address, sv: SignedVoucher
         !old(rt).in_tx@,
         !old(rt).deleted@,
         old(rt).sends@.len() == 0,
+        // the channel's parties are account-type actors (checked by the constructor), never the channel itself: value sent to them leaves
+        rt_never_self(*old(rt), rt_state::<State>(old(rt).state_id@).to), rt_never_self(*old(rt), rt_state::<State>(old(rt).state_id@).from),
     ensures
         r.is_ok() ==> ({
             let st = rt_state::<State>(old(rt).state_id@);
